@@ -82,6 +82,9 @@ def one(sid):
     finally:
         subprocess.run(["git", "-C", "/repo", "worktree", "remove", "--force", str(wt)], capture_output=True)
         shutil.rmtree(wt, ignore_errors=True)
+    merged = dict(meta.get("checks_run_against_patched_repo") or {}) if CHECKS else {}
+    merged.update(results)
+    results = merged
     meta["checks_run_against_patched_repo"] = results
     meta["caught_by"] = [c for c, r in results.items() if r["exit"] == 1]
     json.dump(meta, open(d / "meta.json", "w"), indent=1)
